@@ -291,6 +291,11 @@ class Sim:
             self.fail("view:category-keys-raised", where=where, got=exc_name(keys))
         if keys != list(mcat.keys()):
             self.fail("view:column-names", where=where, got=keys, expected=list(mcat.keys()))
+        if self.cat_valid(mcat):
+            st, rc = call(lambda: cat_obj.row_count)
+            exp_rc = len(next(iter(mcat.values())))
+            if st == "exc" or rc != exp_rc:
+                self.fail("view:row-count", where=where, got=rc if st == "ok" else exc_name(rc), expected=exp_rc)
         for cn, cells in mcat.items():
             st, col = call(lambda: cat_obj[cn])
             if st == "exc":
